@@ -97,15 +97,36 @@ where
     }
 }
 
+/// The text of a URI host as rustls accepts it for a server name: a DNS name or an IP address,
+/// where an IPv6 address loses the brackets it has in a URI. `None` if the host is neither.
+pub(crate) fn server_name_str(host: &str) -> Option<&str> {
+    let name = match host.strip_prefix('[').and_then(|h| h.strip_suffix(']')) {
+        Some(literal) => {
+            literal.parse::<std::net::Ipv6Addr>().ok()?;
+            literal
+        }
+        None => host,
+    };
+    rustls::pki_types::ServerName::try_from(name).ok()?;
+    Some(name)
+}
+
 impl<IO> TlsStream<IO>
 where
     IO: HasConnectionInfo + AsyncRead + AsyncWrite + Unpin,
     IO::Addr: Clone,
 {
     /// Create a new TLS stream from the given IO, with a domain name and TLS configuration.
+    ///
+    /// The domain can be a DNS name or an IP address; an IPv6 address may be enclosed
+    /// in brackets, as it is in a URI.
+    ///
+    /// # Panics
+    /// Panics if `domain` is neither a valid DNS name nor an IP address.
     pub fn new(stream: IO, domain: &str, config: Arc<ClientConfig>) -> Self {
+        let domain = server_name_str(domain).expect("should be a valid dns name or ip address");
         let domain = rustls::pki_types::ServerName::try_from(domain)
-            .expect("should be valid dns name")
+            .expect("should be a valid dns name or ip address")
             .to_owned();
 
         let connect = tokio_rustls::TlsConnector::from(config).connect(domain, stream);
